@@ -26,6 +26,12 @@ FOCUSES = [("lx-markup", "AMarkupSmall", 4, 4, "Empty", "Empty"),
            ("lx-comment-open", "AComment", 4, 5, "PCommentOpen", "Empty"),
            ("lx-raw", "AComment", 3, 4, "PRaw", "SRaw")]
 
+# random long sources (tlc -simulate): markup kinds following one another in ways the short exhaustive sources cannot
+#        focus            alphabet   symbols  walks(quick, thorough)  prefix   suffix
+SIMS = [("lx-markup-sim", "AMarkup", 10, (4000, 40000), "Empty", "Empty"),
+        ("lx-liquid-sim", "ALiquid", 9, (3000, 30000), "PLiquid", "Empty"),
+        ("lx-comment-sim", "AComment", 9, (3000, 30000), "PComment", "SComment")]
+
 _WC = {"DEFAULT": "", "MINUS": "-", "PLUS": "+", "TILDE": "~"}
 
 
@@ -107,6 +113,27 @@ def judge(rec, opts):
 def run(chk: Check, tier: str, only: tuple[str, ...] | None = None, shrink: int = 0) -> None:
     """Run every focus of the lexer machine and replay its exports into the library."""
     from . import gen
+    from .common import seed
+    for focus, alpha, n, walks, pre, suf in SIMS:
+        if only and focus not in only:
+            continue
+        num = walks[1] if tier == "thorough" else walks[0]
+        cfg = tlc.cfg_text(constants={"Alphabet": f"<- {alpha}", "MaxLen": str(n), "Prefix": f"<- {pre}", "Suffix": f"<- {suf}",
+                                      "Focus": _q(focus)}, invariants=INVARIANTS)
+        r = tlc.run("LiquidLexer", cfg, tag=f"lexer-{focus}", simulate=f"num={num}", depth=n + 120, seed=seed(), timeout=3000)
+        if r.error:
+            chk.machinery_error = r.error
+            r.cleanup()
+            return
+        if r.invariant_violated:
+            chk.violation(f"lexer-machine:{r.invariant_violated}:{focus}", {"trace": r.trace[:60]})
+            r.cleanup()
+            continue
+        chk.tlc(r, f"lexer machine {focus}: {num} random sources of <= {n} symbols of {alpha} (tlc -simulate, not exhaustive)")
+        try:
+            gen.replay_file(chk, r.workdir / "out.ndjson", "harness.lexer", "judge")
+        finally:
+            r.cleanup()
     for focus, alpha, q, t, pre, suf in FOCUSES:
         if only and focus not in only:
             continue
